@@ -6,10 +6,32 @@
   the code computes it (flattened means, `mean(axis=1)`, boolean column masks, `np.var`,
   mask-then-`np.sort(...)[:, -1]`, append-and-compare-lengths loops) and is proved equal, for all
   inputs over every field, to the index-by-index definition the property states.
+
+  CLAUSE MAP (clause of the property text → theorem)
+   1. overall MSE = mean squared error over all (experiment, posterior sample) pairs → C20_mse (hypothesis `Shape`, inhabited)
+   2. its variance is across experiments of the per-experiment MSE → C20_mse_variance_axis
+   3. inter-chain variance = variance of the per-chain MSEs → C20_chain_mse, C20_inter_chain, C20_inter_chain_single,
+        C20_chain_labels (each occurring label once; a label's columns wherever they stand)
+   4. mean predictions average over posterior samples → C20_mean_predictions
+   5. an evaluation file reloads unchanged → C20_reload, C20_reload_metrics (model `saveEval`/`loadEval`, tied by `c20.reload`);
+        harness-only: that h5py/HDF5/gzip return the numeric datasets and the S<w> bytes they were given (container fidelity)
+   6. single-agent effect of (sample, treatment) = mean of that sample's single-agent observations of it (1 for control)
+        → C20_single_effect_is_mean, C20_single_effect_array (hypothesis `Arrays`, inhabited)
+   7. Bliss synergy = product of single-agent effects − observation; unmeasured combinations skipped / refused in strict mode
+        → C20_synergy_bliss, C20_synergy_skip_or_refuse, C20_synergy_pair
+        harness-only: packing of the reported rows into rectangular numpy arrays
+   8. similarity matrix symmetric → C20_corr_symmetric; unit diagonal → C20_corr_unit_diagonal (any sqrt with sqrt·sqrt = id on the
+        norm), C20_corr_unit_diagonal_real (ℝ; non-degeneracy hypothesis, inhabited; 0/0 = NaN at the excluded point)
+   9. computed from average predictions over every unordered treatment combination of the experiment space, encoded with the
+        screen's own ids → C20_corr_from_space, C20_space_complete, C20_space_refuses, C20_space_guard
+        (the average predictions themselves: C09_avg_is_mean)
+  10. (anchor `calculate_mse`) → C20_calculate_mse
+  harness-only for all clauses: IEEE rounding (tolerance), numpy summation order, pandas labelling of the matrix.
 -/
 import Batchie.Lemmas.MetricsSynergy
 import Batchie.Lemmas.PredictHolder
 import Batchie.Lemmas.MetricsSpace
+import Batchie.Lemmas.LifecycleCodec
 import Mathlib.Analysis.Real.Sqrt
 
 namespace Batchie.Props.C20
@@ -586,5 +608,44 @@ theorem C20_calculate_mse {R : Type} [Field R] (avg obs : List R) (n : Nat) (ha 
   simp only [calculateMse, hv.mean]
 
 example : calculateMse ([1, 3] : List Rat) [0, 1] = 5 / 2 := by decide +kernel
+
+
+/-! ## 7. the evaluation file reloads unchanged -/
+
+section reload
+open Batchie.Proto Batchie.Persist Batchie.Lifecycle
+
+/-- `ModelEvaluation.load_h5 (save_h5 ev)` is `ev`: for every evaluation the constructor accepts
+    (`shapeOk`), with at least one experiment (an EMPTY `sample_names` dataset comes back as float64
+    and `np.char.decode` refuses it -- the model says TypeError there, see `Model/Persist.lean`) and
+    names numpy can store (`NameOK`: Unicode scalar values, not ending in U+0000).  The three numeric
+    arrays are carried unchanged, the names survive UTF-8 encoding, zero padding to the common width
+    and stripping, and the constructor's checks pass again; hence every metric of the reloaded
+    evaluation is the metric of the original one. -/
+theorem C20_reload {α : Type} (r : EvalRec α) (hs : r.shapeOk = true) (hne : r.names ≠ [])
+    (hn : ∀ n ∈ r.names, NameOK n) :
+    loadEval (saveEval r) = .ok r := by
+  unfold loadEval saveEval
+  simp only [decodeTable_encodeTable r.names hne hn, bind, Except.bind]
+  have : (({ K := r.K, preds := r.preds, obs := r.obs, chains := r.chains, names := r.names } : EvalRec α)) = r := by
+    cases r; rfl
+  rw [this, if_pos hs]
+
+/-- ... so the reloaded evaluation reports the same metrics (all four) -/
+theorem C20_reload_metrics {α : Type} [Add α] [Sub α] [Mul α] [Div α] [OfNat α 0] [OfCount α]
+    (r r' : EvalRec α) (hs : r.shapeOk = true) (hne : r.names ≠ []) (hn : ∀ n ∈ r.names, NameOK n)
+    (h : loadEval (saveEval r) = .ok r') :
+    mse r'.preds r'.obs = mse r.preds r.obs ∧ mseVariance r'.preds r'.obs = mseVariance r.preds r.obs
+    ∧ interChainMseVariance r'.preds r'.obs r'.chains = interChainMseVariance r.preds r.obs r.chains
+    ∧ meanPredictions r'.preds = meanPredictions r.preds := by
+  rw [C20_reload r hs hne hn] at h
+  cases h
+  exact ⟨rfl, rfl, rfl, rfl⟩
+
+/-- the hypotheses are satisfiable: two experiments, three samples, a non-ASCII and a long-ish name -/
+example : (⟨3, [[1, 2, 3], [4, 5, 6]], [0, 1], [0, 0, 7], [[233, 97], [115, 49, 48]]⟩ : EvalRec Int).shapeOk = true
+    ∧ ∀ n ∈ [[233, 97], [115, 49, 48]], NameOK n := by decide
+
+end reload
 
 end Batchie.Props.C20
